@@ -136,6 +136,9 @@ def campaign(modname, partname, tier, runs, seed, shards=8, timeout=7200):
             cmd = [sys.executable, "-m", "vlib.fuzz", modname, partname, tier,
                    out, "-runs=%d" % runs, "-seed=%d" % (seed * 100 + i + 1),
                    "-max_len=4096"]
+            # (libFuzzer leaves through exit(): the part's teardown does
+            # not run, so its scratch files live inside the shard directory)
+            env = dict(env, TMPDIR=out)
             procs.append((out, subprocess.Popen(
                 cmd, cwd=ROOT, env=env, stdout=subprocess.DEVNULL,
                 stderr=subprocess.PIPE, text=True)))
